@@ -80,7 +80,12 @@ fn print_one(
         var,
         options_allowed: context.options_allowed,
     };
-    let separator = if name.starts_with('-') { "-- " } else { "" };
+    // The typeset built-in parses operands starting with `+` as options, too.
+    let separator = if name.starts_with(['-', '+']) {
+        "-- "
+    } else {
+        ""
+    };
     let quoted_name = yash_quote::quoted(name);
     match &var.value {
         Some(value @ Value::Scalar(_)) => writeln!(
